@@ -190,7 +190,7 @@ def run(ctx):
             ctx.violations[k] = ("replayed input still fails", payload)
         shutil.rmtree(scratch, ignore_errors=True)
         return ctx.finish(RULE, False, [])
-    n = 40000 if ctx.thorough else 1200
+    n = 16000 if ctx.thorough else 1200
     gen_dir = os.path.join("/dev/shm" if os.path.isdir("/dev/shm") else os.path.join(core.VERIF, "work"), f"capyv-C06-gen-{os.getpid()}")
     shutil.rmtree(gen_dir, ignore_errors=True)
     pr = subprocess.run(["/verif/target/release/capyv-lib", "GEN", "--n", str(n), "--out", gen_dir], env={**os.environ, "VERIF_SEED": str(ctx.seed)}, stdout=subprocess.PIPE, stderr=subprocess.STDOUT)
@@ -213,7 +213,7 @@ def run(ctx):
     with multiprocessing.Pool(core.NWORKERS) as pool:
         for st_ in pool.imap_unordered(_corpus_worker, jobs):
             ctx.merge(st_)
-    total = 20000 if ctx.thorough else 800
+    total = 8000 if ctx.thorough else 800
     infra = core.hypothesis_search(ctx, "pyv.c06", total, profiles=("single", "single", "single", "multi"))
     scratch = core.make_scratch("C06", "kf")
     rc = ctx.finish(RULE, False, [
